@@ -1324,7 +1324,7 @@ package trzsz
 //@       !result_of("atomic.Bool.Load", 0, 0) && result_of("writeAll", 0, 0) == nil ==> \
 //@       wlen[old(filter.serverIn)] == old(wlen)[old(filter.serverIn)] + len(buf) && \
 //@       (forall k int {wlog[old(filter.serverIn)][k]} :: old(wlen)[old(filter.serverIn)] <= k && k < wlen[old(filter.serverIn)] ==> \
-//@           wlog[old(filter.serverIn)][k] == buf[k - old(wlen)[old(filter.serverIn)]]) && \
+//@           wlog[old(filter.serverIn)][k] == old(buf[k - old(wlen)[old(filter.serverIn)]])) && \
 //@       (forall w int {wlen[w]} :: w != old(filter.serverIn) ==> wlen[w] == old(wlen)[w])
 //@   # with drag detection on, input that is not a list of existing paths (and not the start of a
 //@   # Windows path that may continue in the next chunk) is forwarded just the same
@@ -1337,15 +1337,37 @@ package trzsz
 //@       !result_of("detectDragFiles", 0, 3) && result_of("writeAll", 0, 0) == nil ==> \
 //@       wlen[old(filter.serverIn)] == old(wlen)[old(filter.serverIn)] + len(buf) && \
 //@       (forall k int {wlog[old(filter.serverIn)][k]} :: old(wlen)[old(filter.serverIn)] <= k && k < wlen[old(filter.serverIn)] ==> \
-//@           wlog[old(filter.serverIn)][k] == buf[k - old(wlen)[old(filter.serverIn)]])
+//@           wlog[old(filter.serverIn)][k] == old(buf[k - old(wlen)[old(filter.serverIn)]]))
 //@ end
 
 //@ func TrzszFilter.resetDragFiles
 //@   assigns filter.dragFiles, lockHeld
 //@ end
 
-//@ # ASSUMED frame: looks at the file system only
-//@ func detectDragFiles trusted pure
+//@ # Drag detection only looks: none of the bytes of the chunk it is given (nor any other byte array
+//@ # that existed before) is changed - what sendInput forwards afterwards is what it was handed.
+//@ pure bytesKept(buf []byte) bool = \
+//@     (forall k int {buf[k]} :: 0 <= k && k < len(buf) ==> buf[k] == old(buf[k])) && \
+//@     (forall r int {heap("byte")[r]} :: 0 < r && r <= old(alloc()) && r != ref(buf) ==> heap("byte")[r] == old(heap("byte"))[r])
+//@ func detectFilePath
+//@   assigns *dragFiles, *hasDir, elemsof("string")
+//@ end
+//@ func detectDragFilesOnLinux
+//@   assigns elemsof("string")
+//@ end
+//@ func detectDragFilesOnWindows
+//@   assigns elemsof("string")
+//@ end
+//@ func detectDragFilesOnMacOS
+//@   assigns elemsof("byte"), elemsof("string"), bufLen, bufCap, bufArr
+//@   ensures [C05] bytesKept(buf)
+//@   loop 1
+//@     invariant bytesKept(old(buf))
+//@     invariant bufArr[pathBuf] == 0 || bufArr[pathBuf] > old(alloc())
+//@ end
+//@ func detectDragFiles
+//@   assigns elemsof("byte"), elemsof("string"), bufLen, bufCap, bufArr
+//@   ensures [C05] bytesKept(buf)
 //@ end
 
 //@ # Remote output: with no trace log, whatever the output pump hands to the local terminal on the
